@@ -277,7 +277,7 @@ def param_sets(tier):
     out.append(dict(base, datadir='user-new', exit='code0'))
     out.append(dict(base, ostyle='absent'))
     marker_len = len(b'Opening Control listener')
-    ks = range(1, marker_len) if tier == 'thorough' else (1, 8, 16, marker_len - 1)
+    ks = range(1, marker_len)
     for k in ks:
         out.append(dict(base, ostyle=('split', k)))
     if tier == 'thorough':
@@ -328,7 +328,7 @@ def meta(tier):
              'TAKEOWNERSHIP acknowledged or rejected; exit code 0 / 1 / signal; temporary or caller data directory; kill_on_stderr) '
              'x every linearisation of {stdout, stderr, connect, auth+bootstrap+SETEVENTS, TAKEOWNERSHIP answer, RESETCONF answer, '
              'BOOTSTRAP 50 / 100 / 100, timeout, process end} consistent with causality (%d orders). non-trivial = at least 3 events'
-             % (len(param_sets(tier)), 'all' if tier == 'thorough' else '4', n),
+             % (len(param_sets(tier)), 'all 23', n),
         bounds=dict(param_sets=len(param_sets(tier)), orders=n),
         assumptions=['after the process has ended the control connection is gone: only the timeout can still fire',
                      'Tor sends STATUS_CLIENT events only after SETEVENTS was acknowledged',
